@@ -452,9 +452,12 @@ def labels_robust(d, n, p):
         j = math.floor(vi)
         g = vi - j
         a, b = s[j], s[min(j + 1, N - 1)]
+        exact_q = is_dyadic(q) and q.denominator <= 2 ** 20 and not inexact
+        eps = Fraction(1, 10 ** 6)
+        if not exact_q and not (eps < g < 1 - eps):
+            return False                                  # the float virtual index may fall on the other side of an integer
         if a == b:
             continue
-        exact_q = is_dyadic(q) and q.denominator <= 2 ** 20 and not inexact
         small = all(is_dyadic(v) and v.denominator <= 2 ** 10 and abs(v) < 2 ** 30 for v in (a, b))
         if exact_q and small:
             continue
